@@ -391,7 +391,7 @@ func (w *World) Build(parent *MBlock, o BlockOpts) *MBlock {
 	if mut != nil && mut.header != nil {
 		mut.header(bp)
 	}
-	if d := &net.Diff; d.BIP94 && !d.NoRetarget && height%d.interval() == 0 && bp.ts < parent.H.ts-600 && bp.flag == "" {
+	if d := &net.Diff; d.BIP94 && height%d.interval() == 0 && bp.ts < parent.H.ts-600 && bp.flag == "" {
 		// BIP94: the first block of a retarget period may not be more than
 		// 600 s older than its parent.  A block meant to be valid stays so.
 		if mut == nil || mut.class == ClsValid {
